@@ -261,6 +261,10 @@ class Interp:
                 if 0 <= i < len(base):
                     return base[i]
                 raise Undecided("index %d out of bounds (a panic in the analysed code)" % i)
+            if self.call is not None:
+                r = self.call(n, base, [i], self, env)
+                if r is not None:
+                    return r[0]
             raise Undecided("index into %r" % (base,))
         if k == "Field":
             base = self.ev(n["e"], env)
@@ -369,6 +373,11 @@ class Interp:
         self.ev(st, env)
 
     def apply(self, f, args):
+        if isinstance(f, Opaque) and self.call is not None:
+            # a function item passed as a value (`.and_then(Duration::try_days)`)
+            r = self.call({"k": "Call", "callee": f.what, "m": None, "args": [], "f": {"k": "Path", "res": f.what}}, None, list(args), self, {})
+            if r is not None:
+                return r[0]
         if not isinstance(f, Closure):
             raise Undecided("call of a non-closure value %r" % (f,))
         env = f.env
@@ -448,6 +457,13 @@ class Interp:
                 return recv if present else self.ev(n["args"][0], env)
             if m == "or_else" and len(n["args"]) == 1 and recv.name.startswith("Option"):
                 return recv if present else self.apply(self.ev(n["args"][0], env), [])
+            if m in ("ok_or", "ok_or_else") and len(n["args"]) == 1 and recv.name.startswith("Option"):
+                if present:
+                    return V("Result::Ok", [recv.args[0]])
+                e = self.ev(n["args"][0], env)
+                return V("Result::Err", [self.apply(e, []) if m == "ok_or_else" else e])
+            if m in ("map_err",) and len(n["args"]) == 1 and recv.name.startswith("Result"):
+                return recv if present else V("Result::Err", [self.apply(self.ev(n["args"][0], env), [recv.args[0]])])
             if m == "ok" and not n["args"] and recv.name.startswith("Result"):
                 return some(recv.args[0]) if present else NONE
             if m == "unwrap_or_default" and not n["args"] and present:
